@@ -670,9 +670,11 @@ def check_w3_reader(t, inv, rd, mode, rep):
         rep.add("W3", "%s:%s:no-tag-read" % (t.key, mode), "`%s` (%s): no reader path reads a tag first" % (t.key, mode), t.loc)
         return
     tty = live[0].atoms[0].ty
-    if not (isinstance(tty, tuple) and tty[0] == "prim" and tty[1] in INT_BITS):
+    if not (isinstance(tty, tuple) and tty[0] == "prim" and tty[1] in ("u8", "u16", "u32", "u64", "usize")):
+        # bool / char / signed readers decode several byte patterns to one value (bool: any non-zero byte is true),
+        # so foreign tag bytes would be accepted below the level this table sees
         rep.oblige(False)
-        rep.add("W3", "%s:%s:tag-type" % (t.key, mode), "`%s` (%s): the tag is read as %s, not as an integer" % (t.key, mode, ty_str(tty)), t.loc)
+        rep.add("W3", "%s:%s:tag-type" % (t.key, mode), "`%s` (%s): the tag is read as %s, not as an unsigned integer: its reader is not injective on the bytes of the stream, foreign tag bytes are mapped to a variant" % (t.key, mode, ty_str(tty)), t.loc)
         return
     bits = INT_BITS[tty[1]]
     if bits <= 8:
@@ -801,3 +803,40 @@ def check_w4(t, side, p, rep):
                 walk(a.body)
             prev = a
     walk(p.atoms)
+
+
+def check_refusals(t, mode, rep):
+    """A reader path that panics depending on the value of something it has read refuses a set of stream values.
+    That set must be declared on the writer's side: at the same position every writer path writes a constant, chosen
+    by a selector on the value (so the `when` of the writer term says which values are refused). A writer that
+    computes the atom by some other expression can hand ordinary values to the refusing reader."""
+    ser = [p for p in (t.paths.get("ser") or []) if p.outcome == "ok"]
+    rd = t.paths.get(mode) or []
+    n = 0
+    for r in rd:
+        if r.outcome != "panic":
+            continue
+        ks = []
+        for c in r.raw.conds:
+            if c[0] in ("true", "false"):
+                for i, a in enumerate(r.atoms):
+                    if a.atom is not None and mentions_atom(c[1], a.atom):
+                        # only pure tests of the value itself (comparisons of the atom with constants); bounds and
+                        # layout assertions that merely involve a length are not refusals of a value
+                        try:
+                            ev_int(c[1], 0, a.atom)
+                        except _Unk:
+                            continue
+                        ks.append(i)
+        for i in sorted(set(ks)):
+            n += 1
+            srcs = []
+            for w in ser:
+                if i < len(w.atoms):
+                    srcs.append(w.atoms[i].src)
+            ok = bool(srcs) and all(const_of(x) is not None for x in srcs)
+            rep.oblige(ok)
+            if not ok:
+                rep.add("W-REFUSE", "%s:%s:atom%d" % (t.key, mode, i), "`%s` (%s): the reader panics depending on the value of stream atom #%d, but the writer does not pick that atom from constants under a selector on the value (it writes %s): values outside a declared exclusion can reach the refusing reader"
+                        % (t.key, mode, i, [vs(x)[:60] for x in srcs][:2]), t.loc)
+    return n
